@@ -97,6 +97,7 @@ type SpecFn struct {
 	Params []SVar
 	Result string
 	Body   SExpr // nil = uninterpreted
+	Reads  []string // memory arrays the body reads (heap-dependent specification function)
 	Rec    bool
 	Src    string
 }
@@ -119,7 +120,16 @@ type Macro struct {
 	Src    string
 }
 
+// NamedAxiom: a fact about a recursive specification function whose proof needs induction. The
+// inductive step is a lemma discharged by the solver (By); the induction principle itself is applied
+// outside the solver and listed as an assumption. Assumed in every VC that uses the function (Uses).
+type NamedAxiom struct {
+	Name, Uses, By string
+	Clause         Clause
+}
+
 type Specs struct {
+	NamedAxioms []NamedAxiom
 	Macros     map[string]*Macro
 	GlobalInvs []GlobalInv
 	Contracts map[string]*Contract
@@ -372,11 +382,29 @@ func (sp *Specs) loadFile(path string, goFile bool) error {
 			sp.Contracts[c.Func] = c
 			cur = nil
 		case "axiom":
-			cl, err := parseClause(rest, src)
+			// axiom <name> uses <specfn> by <justification>: <expr>
+			i := strings.Index(rest, ":")
+			if i < 0 {
+				return fail(fmt.Errorf("axiom <name> uses <fn> by <lemma>: <expr>"))
+			}
+			head := strings.Fields(rest[:i])
+			cl, err := parseClause(strings.TrimSpace(rest[i+1:]), src)
 			if err != nil {
 				return fail(err)
 			}
-			sp.Axioms = append(sp.Axioms, cl)
+			ax := NamedAxiom{Clause: cl}
+			if len(head) > 0 {
+				ax.Name = head[0]
+			}
+			for k := 1; k+1 < len(head); k += 2 {
+				switch head[k] {
+				case "uses":
+					ax.Uses = head[k+1]
+				case "by":
+					ax.By = head[k+1]
+				}
+			}
+			sp.NamedAxioms = append(sp.NamedAxioms, ax)
 		default:
 			if cur == nil {
 				return fail(fmt.Errorf("clause %q outside a func block", kw))
@@ -673,6 +701,17 @@ func parseSpecFn(s string) (*SpecFn, error) {
 	}
 	rest := strings.TrimSpace(s[j+1:])
 	if k := strings.Index(rest, "="); k >= 0 && !strings.HasPrefix(rest[k:], "==") {
+		head := strings.TrimSpace(rest[:k])
+		if r := strings.Index(head, " reads "); r >= 0 {
+			for _, n := range strings.Split(head[r+7:], ",") {
+				if n = strings.TrimSpace(n); n != "" {
+					fn.Reads = append(fn.Reads, n)
+				}
+			}
+			head = strings.TrimSpace(head[:r])
+			rest = head + " " + rest[k:]
+			k = len(head) + 1
+		}
 		fn.Result = strings.ReplaceAll(strings.TrimSpace(rest[:k]), " ", "")
 		e, err := ParseSpec(rest[k+1:])
 		if err != nil {
